@@ -180,6 +180,9 @@ pub fn run_scenario(sc: &Scenario) -> Judged {
                 if history.len() > 1025 {
                     j.probes.add("histories_longer_than_1024_plies", 1);
                 }
+                if occs.iter().any(|oc| oc.occ_recorded >= 255) {
+                    j.probes.add("successor_that_occurred_255_times_or_more", 1);
+                }
                 if history.len() > 101 {
                     for oc in &occs {
                         if oc.occ_recorded >= 2 {
@@ -515,6 +518,48 @@ pub fn generate(seed: u64) -> Scenario {
         if let Some((start, ms)) = gen_forced_repetition(&mut rng) {
             lines.push("ucinewgame".to_string());
             lines.push(format!("position fen {} moves {}", start.to_fen(), gen::moves_uci(&ms).join(" ")));
+            lines.push(depth1_go(&mut rng));
+            return Scenario { lines, key_seed: rng.next_u64(), forced: vec![] };
+        }
+    }
+    if rng.chance(1, 40) {
+        // one position occurring 254-259 times (a cycle of piece shuffles repeated that often,
+        // its last move left to play): counts around a byte's range
+        let start = if rng.chance(1, 2) { Pos::startpos() } else { gen::sparse_position(&mut rng) };
+        let n = *rng.pick(&[254usize, 255, 256, 256, 257, 258, 259]);
+        let (mut ms, _) = gen::shuffle_history(&start, 4 * n);
+        if ms.len() == 4 * n {
+            ms.pop();
+            let root = if start == Pos::startpos() { "startpos".to_string() } else { format!("fen {}", start.to_fen()) };
+            lines.push("ucinewgame".to_string());
+            lines.push(format!("position {} moves {}", root, gen::moves_uci(&ms).join(" ")));
+            lines.push(depth1_go(&mut rng));
+            return Scenario { lines, key_seed: rng.next_u64(), forced: vec![] };
+        }
+    }
+    if rng.chance(1, 10) {
+        // a game that starts from a position the engine has just searched in the game before:
+        // `position P`, go, ucinewgame, `position P moves ...` with P about to occur again
+        let start = match rng.below(3) {
+            0 => Pos::startpos(),
+            1 => gen::sparse_position(&mut rng),
+            _ => {
+                let p = gen::random_position(&mut rng);
+                if p.is_valid() && !p.legal_moves().is_empty() { let mut p = p; p.halfmove = p.halfmove.min(50); p.fullmove = p.fullmove.clamp(1, 200); p } else { Pos::startpos() }
+            }
+        };
+        let cycles = rng.range(1, 3) as usize;
+        let (mut ms, _) = gen::shuffle_history(&start, 4 * (cycles + 1));
+        if ms.len() == 4 * (cycles + 1) {
+            ms.pop();
+            let root = if start == Pos::startpos() { "startpos".to_string() } else { format!("fen {}", start.to_fen()) };
+            if rng.chance(1, 2) {
+                lines.push("ucinewgame".to_string());
+            }
+            lines.push(format!("position {}", root));
+            lines.push(format!("go depth {}", rng.range(1, 3)));
+            lines.push("ucinewgame".to_string());
+            lines.push(format!("position {} moves {}", root, gen::moves_uci(&ms).join(" ")));
             lines.push(depth1_go(&mut rng));
             return Scenario { lines, key_seed: rng.next_u64(), forced: vec![] };
         }
